@@ -14,7 +14,12 @@ use crate::codecrec;
 use crate::trace::bytes;
 use lorawan::maccommandcreator::build_mac_commands;
 use lorawan::maccommands::{mac_commands_len, SerializableMacCommand};
-use lorawan::parser::{self, EncryptedDataPayload, EncryptedJoinAcceptPayload, JoinRequestPayload, PhyPayload};
+use lorawan::default_crypto::DefaultCrypto;
+use lorawan::keys::AES128;
+use lorawan::parser::{
+    self, CfList, DecryptedDataPayload, DecryptedJoinAcceptPayload, EncryptedDataPayload, EncryptedJoinAcceptPayload,
+    FrmPayload, JoinRequestPayload, PhyPayload,
+};
 use rand::rngs::StdRng;
 use rand::seq::SliceRandom;
 use rand::{Rng, SeedableRng};
@@ -119,6 +124,28 @@ fn frame_obs(b: &[u8]) -> ([i64; 4], Vec<String>) {
             if !r.panics.is_empty() {
                 panic!("fopts: {}", r.panics[0]);
             }
+            // the decrypted view of the same bytes (no MIC check), with and without keys
+            let key = DefaultCrypto::new(&AES128(KEK0));
+            for (nwk, app) in [(Some(&key), Some(&key)), (None, None)] {
+                let mut buf = p.as_bytes().to_vec();
+                if let Ok(d) = DecryptedDataPayload::decrypt_in_place(&mut buf, nwk, app, 0x0001_0000) {
+                    let h = d.fhdr();
+                    let _ = (d.frame_type(), d.is_uplink(), d.is_confirmed(), d.f_port(), d.mic(), d.as_bytes().len());
+                    let _ = (h.dev_addr(), h.fcnt(), h.f_opts().len(), h.fctrl().f_opts_len());
+                    match d.frm_payload() {
+                        FrmPayload::MacCommands(m) => {
+                            let r = items(set, m, false, &KEK0);
+                            if !r.panics.is_empty() {
+                                panic!("port 0 commands: {}", r.panics[0]);
+                            }
+                        }
+                        FrmPayload::Data(x) => {
+                            let _ = x.len();
+                        }
+                        FrmPayload::None => {}
+                    }
+                }
+            }
         }) {
             panics.push(format!("data accessors: {m}"));
         }
@@ -134,6 +161,24 @@ fn frame_obs(b: &[u8]) -> ([i64; 4], Vec<String>) {
     let touch_ja = |p: &EncryptedJoinAcceptPayload<'_>, panics: &mut Vec<String>| {
         if let Err(m) = catch(|| {
             let _ = p.as_bytes().len();
+            // the decrypted view (no MIC check) and every accessor of it
+            let mut buf = p.as_bytes().to_vec();
+            let key = DefaultCrypto::new(&AES128(KEK0));
+            if let Ok(d) = DecryptedJoinAcceptPayload::decrypt_in_place(&mut buf, &key) {
+                let _ = (d.join_nonce(), d.net_id(), d.dev_addr(), d.dl_settings().raw_value(), d.rx_delay(), d.mic());
+                let _ = (d.validate_mic(&key), d.as_bytes().len());
+                match d.c_f_list() {
+                    Some(CfList::DynamicChannel(f)) => {
+                        let _ = f.iter().map(|x| x.hz() as u64).sum::<u64>();
+                    }
+                    Some(CfList::FixedChannel(m)) => {
+                        let _ = m.as_ref().len();
+                    }
+                    None => {}
+                }
+                let _ = d.derive_nwkskey(lorawan::parser::DevNonce::from_value(1), &key);
+                let _ = d.derive_appskey(lorawan::parser::DevNonce::from_value(1), &key);
+            }
         }) {
             panics.push(format!("join accept accessors: {m}"));
         }
